@@ -4,7 +4,6 @@ package main
 
 import (
 	"bytes"
-	"sync"
 	"encoding/json"
 	"fmt"
 	"os"
@@ -13,6 +12,7 @@ import (
 	"regexp"
 	"sort"
 	"strings"
+	"sync"
 	"time"
 )
 
@@ -166,6 +166,12 @@ func tryReplay(w *world, prop string, o *oblResult, rec map[string]any) (bool, m
 }
 
 var replayCache = map[string][3]string{}
+
+// every replay compiles and runs a test against the real code (10-30 s): a run that fails many obligations replays
+// the first few distinct models only
+const maxReplayRuns = 4
+
+var replayRuns = 0
 var replayMu sync.Mutex
 
 // cachedReplay runs each distinct (template, environment) once per check run.
@@ -181,6 +187,11 @@ func cachedReplay(repo, verifDir string, plan *replayPlan) (bool, string, string
 		replayMu.Unlock()
 		return r[0] == "1", r[1], r[2]
 	}
+	if replayRuns >= maxReplayRuns {
+		replayMu.Unlock()
+		return false, fmt.Sprintf("not run: the replay budget of this check run (%d executions) is used up; the solver model is recorded", maxReplayRuns), ""
+	}
+	replayRuns++
 	replayMu.Unlock()
 	ok, out, cmd := runReplay(repo, verifDir, plan)
 	flag := "0"
